@@ -1255,7 +1255,7 @@ func ruleRowDelete(r *Report) {
 		return
 	}
 	ok := false
-	var pos ssa.Instruction
+	var pos, perColumnSkip ssa.Instruction
 	for _, c := range callsTo(cm, false, "(*commit.Reader).Range") {
 		cc, _, _ := callCommon(c)
 		if !sameExpr(cc.Args[1], cm.Params[3]) || !sameExpr(cc.Args[2], cm.Params[1]) {
@@ -1276,9 +1276,23 @@ func ruleRowDelete(r *Report) {
 				if sameExpr(acc.Args[0], cbParam(f2, 0)) {
 					ok = true
 					pos = a
+					// … for every column: the per-column callback applies on every path (a test of the
+					// block against the collection's extent, made after the fill list was updated,
+					// skips the sweep for the very block the deletes emptied)
+					if every, _ := mustPassToReturn(f2.Blocks[0], 0, func(i2 ssa.Instruction) bool { return i2 == a }); !every {
+						perColumnSkip = a
+					}
+					if every, _ := mustPassToReturn(f1.Blocks[0], 0, func(i2 ssa.Instruction) bool { return i2 == c2 }); !every {
+						perColumnSkip = c2
+					}
 				}
 			}
 		}
+	}
+	if perColumnSkip != nil {
+		h.Bad("(*column.Txn).commitMarkers/apply-every-column", r.P.InstrPos(perColumnSkip), "the per-column callback of the marker sweep can return without applying the markers: the deletes of the block are not propagated to the columns (presence bits, index bits, keys, sorted entries stay; triggers are not told)")
+	} else if ok {
+		h.OK("(*column.Txn).commitMarkers/apply-every-column", r.P.InstrPos(pos), "applied on every path of the per-column callback")
 	}
 	h.Check(ok, "(*column.Txn).commitMarkers/apply-all", r.P.InstrPos(pos), "markers applied to every registry entry", "row markers are not applied to every registered column: deleted rows keep presence bits, index bits or table entries")
 	if ok {
@@ -1340,6 +1354,17 @@ func ruleRegister(r *Report) {
 			}
 			if c.same(cc.Args[1], fn.Params[2]) && !variadicEmpty {
 				target = true // Store(columnName, column, index)
+			}
+		}
+		// the computed column is created knowing its own name and its target's, in that order (Column()
+		// is what the drop functions use to find the list to detach it from)
+		for _, c := range callsWhere(fn, func(_ ssa.Instruction, cc *ssa.CallCommon) bool {
+			sc := cc.StaticCallee()
+			return sc != nil && (sc.Name() == "newIndex" || sc.Name() == "newTrigger" || sc.Name() == "newSortIndex") && len(cc.Args) >= 2
+		}) {
+			cc, _, _ := callCommon(c)
+			if !sameExpr(cc.Args[0], fn.Params[1]) || !sameExpr(cc.Args[1], fn.Params[2]) {
+				own = false
 			}
 		}
 		h.Check(own && target, name, r.P.Pos(fn.Pos()), "stored under its own name and in the target's list", "the computed column is not registered both under its own name (row deletes reach it) and in the target column's list (updates reach it)")
@@ -1409,6 +1434,17 @@ func ruleBackfill(r *Report) {
 			ok, why = false, "block variable is not a loop variable"
 		} else {
 			init := false
+			stepOK := false
+			for _, e := range phi.Edges {
+				if bo, isB := e.(*ssa.BinOp); isB && bo.Op == token.ADD && bo.X == ssa.Value(phi) {
+					if one, isC := constInt(bo.Y); isC && one == 1 {
+						stepOK = true
+					}
+				}
+			}
+			if !stepOK {
+				ok, why = false, "the block counter does not advance by one"
+			}
 			for _, e := range phi.Edges {
 				if c, isC := constInt(e); isC && c == 0 {
 					init = true
